@@ -871,10 +871,12 @@ pub fn assemble_certified(prog: &Prog, claimed_sizes: Option<&[usize]>, claimed_
 /// 1. The layout is iterated (directives that cannot be evaluated or fail under the merely assumed label values are
 ///    skipped in that round) from two starting assumptions — no label has a value / every label = 0xfff0 — until the
 ///    assumed label values reproduce themselves; both must arrive at the same labels.
-/// 2. Perturbation test for circularity: each label-dependent directive in turn is forced to another value, the rest
-///    of the system is iterated to its fixed point again, and the directive's own expression is re-evaluated there. If
-///    its value moved, the directive depends on its own effect (`#addr L - 4` with `L` right behind it): such a
-///    program has many self-consistent layouts and gets no verdict.
+/// 2. Uniqueness: a static dependency analysis (`layout_dependency_cycle`). A directive D *affects* every label declared
+///    after it in the same bank up to the next `#addr` with a literal operand; D *depends on* the labels its operand
+///    mentions (through constants, `$` = the position just before the directive). If the relation "D depends on a label
+///    that D' affects" has a cycle (in particular `#addr L - 4` with `L` right behind it, or `#align (B - A) * 8` in
+///    front of A and B), the program may have several self-consistent layouts and gets no verdict. Without a cycle the
+///    directive values are determined one after the other, the layout is unique, and any iterative resolver reaches it.
 /// Anything else (no convergence, disagreement, unsized data that depends on labels) is Unspecified as well.
 pub fn assemble_fixpoint(prog: &Prog) -> RefOut {
     let first = assemble_with(prog, None);
@@ -921,36 +923,128 @@ pub fn assemble_fixpoint(prog: &Prog) -> RefOut {
     if l1 != l2 {
         return RefOut::Unspec("label-dependent layout: more than one self-consistent layout".into());
     }
-    // perturbation test on every directive whose expression mentions a name
-    for (idx, it) in prog.items.iter().enumerate() {
-        let (etext, is_align) = match it {
-            Item::Res(e) | Item::Addr(e) => (e, false),
-            Item::Align(e) => (e, true),
-            _ => continue,
-        };
-        let Ok(e) = refparse::parse_all(etext) else { continue };
-        let mut vars = vec![];
-        collect_vars(&e, &mut vars);
-        if vars.is_empty() {
-            continue;
-        }
-        let Some(v) = vals.get(&idx) else { return RefOut::Unspec("label-dependent layout: a directive was never evaluated".into()) };
-        let forced = if is_align { v * 2 } else { v + 1 };
-        let moved = match iterate(None, Some((idx, forced))) {
-            // the rest of the system settled: what would the directive's own expression say there?
-            Ok((_, _, vals2)) => vals2.get(&idx) != Some(v),
-            // forcing made the rest fail or diverge: cannot show independence
-            Err(_) => true,
-        };
-        if moved {
-            return RefOut::Unspec("label-dependent layout: a layout directive depends on its own effect (or independence cannot be shown)".into());
-        }
+    let _ = vals;
+    // the solution must be unique: no layout directive may depend, directly or through other directives, on a label
+    // whose address its own effect shifts (static dependency analysis, conservative)
+    if let Some(why) = layout_dependency_cycle(prog) {
+        return RefOut::Unspec(format!("label-dependent layout: {}", why));
     }
     match (r1, r2) {
         (Ok(a), Ok(b)) if a.bits == b.bits && a.symbols == b.symbols => RefOut::Ok(a),
         (Err(e), Err(_)) => RefOut::Error(e),
         _ => RefOut::Unspec("label-dependent layout: the two iterations disagree".into()),
     }
+}
+
+
+/// Some(reason) when a label-dependent layout directive may depend on its own effect (see `assemble_fixpoint`).
+fn layout_dependency_cycle(prog: &Prog) -> Option<String> {
+    // bank of every item
+    let mut bank_of: Vec<String> = vec![];
+    let mut cur = String::new();
+    for it in &prog.items {
+        match it {
+            Item::Bankdef(b) => cur = b.name.clone(),
+            Item::Bank(n) => cur = n.clone(),
+            _ => {}
+        }
+        bank_of.push(cur.clone());
+    }
+    let last_seg = |n: &str| n.trim_start_matches('.').rsplit('.').next().unwrap_or("").to_string();
+    let labels: Vec<(String, usize)> = prog.items.iter().enumerate().filter_map(|(i, it)| if let Item::Label(n) = it { Some((last_seg(n), i)) } else { None }).collect();
+    let consts: Vec<(String, String, usize)> = prog.items.iter().enumerate().filter_map(|(i, it)| if let Item::Const(n, e) = it { Some((last_seg(n), e.clone(), i)) } else { None }).collect();
+    // positions (item indices) an expression at item `at` depends on: labels by their item index, `$` by `at` itself
+    fn deps(text: &str, at: usize, labels: &[(String, usize)], consts: &[(String, String, usize)], seen: &mut Vec<usize>, out: &mut Vec<usize>) -> bool {
+        let Ok(e) = refparse::parse_all(text) else { return false };
+        let mut vars = vec![];
+        collect_vars(&e, &mut vars);
+        for v in vars {
+            if v == "$" || v == "pc" {
+                out.push(at);
+                continue;
+            }
+            for seg in v.trim_start_matches('.').split('.') {
+                for (n, i) in labels {
+                    if n == seg {
+                        out.push(*i);
+                    }
+                }
+                for (n, t, i) in consts {
+                    if n == seg && !seen.contains(i) {
+                        seen.push(*i);
+                        if !deps(t, *i, labels, consts, seen, out) {
+                            return false;
+                        }
+                    }
+                }
+            }
+        }
+        true
+    }
+    let literal_addr = |i: usize| -> bool {
+        if let Item::Addr(t) = &prog.items[i] {
+            if let Ok(e) = refparse::parse_all(t) {
+                let mut vs = vec![];
+                collect_vars(&e, &mut vs);
+                return vs.is_empty();
+            }
+        }
+        false
+    };
+    // directives with a non-literal operand
+    let dirs: Vec<usize> = prog
+        .items
+        .iter()
+        .enumerate()
+        .filter(|(i, it)| matches!(it, Item::Res(_) | Item::Align(_) | Item::Addr(_)) && !literal_addr(*i) && {
+            let t = match it {
+                Item::Res(t) | Item::Align(t) | Item::Addr(t) => t,
+                _ => unreachable!(),
+            };
+            refparse::parse_all(t).map(|e| { let mut vs = vec![]; collect_vars(&e, &mut vs); !vs.is_empty() }).unwrap_or(true)
+        })
+        .map(|(i, _)| i)
+        .collect();
+    // does directive d shift the position of item x?
+    let affects = |d: usize, x: usize| -> bool { x > d && bank_of[x] == bank_of[d] && !(d + 1..x).any(|k| bank_of[k] == bank_of[d] && literal_addr(k)) };
+    let mut edges: Vec<Vec<usize>> = vec![vec![]; dirs.len()];
+    for (a, d) in dirs.iter().enumerate() {
+        let t = match &prog.items[*d] {
+            Item::Res(t) | Item::Align(t) | Item::Addr(t) => t.clone(),
+            _ => unreachable!(),
+        };
+        let mut out = vec![];
+        if !deps(&t, *d, &labels, &consts, &mut vec![], &mut out) {
+            return Some("a layout directive's operand cannot be analysed".into());
+        }
+        for (b, d2) in dirs.iter().enumerate() {
+            // `$` at the directive itself (x == d) is the position before the directive: not shifted by it
+            if out.iter().any(|x| affects(*d2, *x)) {
+                edges[a].push(b);
+            }
+        }
+    }
+    // cycle detection (self loops included)
+    fn reach(from: usize, to: usize, edges: &[Vec<usize>], seen: &mut Vec<bool>) -> bool {
+        for n in &edges[from] {
+            if *n == to {
+                return true;
+            }
+            if !seen[*n] {
+                seen[*n] = true;
+                if reach(*n, to, edges, seen) {
+                    return true;
+                }
+            }
+        }
+        false
+    }
+    for a in 0..dirs.len() {
+        if reach(a, a, &edges, &mut vec![false; dirs.len()]) {
+            return Some("a layout directive depends on a label that its own effect shifts (directly or through other directives)".into());
+        }
+    }
+    None
 }
 
 /// full names of the labels of a program (declaration pass only)
